@@ -61,6 +61,8 @@ func propC13(w *World, r *Report) {
 		RunClosureState(w, r, cffFns)
 		r.Floor("closurestate", 2)
 		RunFDSelectFill(w, r)
+		RunStructCover(w, r, "cff", "Outlines", []string{"cff.Read"}, []string{"(*cff.Font).Write"})
+		RunStructCover(w, r, "cff", "Font", []string{"cff.Read"}, []string{"(*cff.Font).Write"})
 	}
 	r.Rule("dicttypes: for every CFF DICT operator the Go type the writer stores (int32 / float64 / string, per operand) can carry what the reader extracts (getInt / getFloat / getString …): an operator the reader reads as a real must not be written from a float that was truncated to int32, and an operator the reader reads with getInt must not be written as a real (getInt ignores reals) || dictdefaults: where the writer omits an operator because the value equals a constant, that constant equals the default the reader substitutes || bigendian on package cff")
 	sp := w.SSAPkg[modPath+"/cff"]
